@@ -246,8 +246,9 @@ CHECKS = {
              "introspection query on the real engine and compares the whole result with the model inside Coq; on the engine "
              "alone: the four ways agree, __type agrees with __schema.types, includeDeprecated:false is the filtered list, "
              "reasons match, a @nonIntrospectable schema refuses introspection. PARTIAL: lark grammar/transformers, file "
-             "handling and the executor walking schema objects are exercised, not modelled; default values compared for "
-             "presence.",
+             "handling and the executor walking schema objects are exercised, not modelled. Default values are compared as "
+             "VALUES: the reported defaultValue text, parsed back, must be the declared default (every schema carries an input "
+             "type with defaults of every kind, strings needing escapes included).",
         note="Trusted: Coq kernel, generators, SDL printer. __typename = concrete object type is covered by C01's check.",
         design="4 C11"),
     "C12": dict(
